@@ -312,12 +312,21 @@ pub trait TypedIterable {
                 .offset()
                 .expect("Deleting record with no known offset after optional decompression");
         assert!(rr_len > 0);
+        let is_opt = section == Section::Additional && self.rr_type() == Type::OPT.into();
         self.resize_rr(-(rr_len as isize))?;
         let offset = self.offset().unwrap();
         self.set_offset_next(offset);
         self.invalidate();
         let parsed_packet = self.parsed_packet_mut();
         parsed_packet.cached = None;
+        if is_opt {
+            parsed_packet.offset_edns = None;
+            parsed_packet.edns_count = 0;
+            parsed_packet.ext_rcode = None;
+            parsed_packet.edns_version = None;
+            parsed_packet.ext_flags = None;
+            parsed_packet.max_payload = 512;
+        }
         let rrcount = parsed_packet.rrcount_dec(section)?;
         if rrcount <= 0 {
             let offset = match section {
